@@ -10,6 +10,7 @@ package main
 
 import (
 	"runtime"
+	"time"
 	"sync"
 	"sync/atomic"
 )
@@ -47,6 +48,43 @@ type CDisk struct {
 	gateN, gateCnt int
 	gateHit        chan struct{}
 	gateGo         chan struct{}
+	// installer hold: writes to blocks >= holdFrom (the home locations, i.e.
+	// what the journal's installer writes) wait until released; committed data
+	// then lives in the journal's memory log only
+	holdFrom uint64
+	holdCh   chan struct{}
+}
+
+// HoldHome makes every write to a block >= from wait until ReleaseHome.
+func (d *CDisk) HoldHome(from uint64) {
+	d.mu.Lock()
+	if d.holdCh == nil {
+		d.holdFrom = from
+		ch := make(chan struct{})
+		d.holdCh = ch
+		// never for long: a full log makes every commit wait for the installer
+		// (this only bounds the schedule, it decides nothing)
+		time.AfterFunc(120*time.Millisecond, func() {
+			d.mu.Lock()
+			same := d.holdCh == ch
+			d.mu.Unlock()
+			if same {
+				d.ReleaseHome()
+			}
+		})
+	}
+	d.mu.Unlock()
+}
+
+func (d *CDisk) ReleaseHome() {
+	d.mu.Lock()
+	ch := d.holdCh
+	d.holdCh = nil
+	d.holdFrom = 0
+	d.mu.Unlock()
+	if ch != nil {
+		close(ch)
+	}
 }
 
 // ArmReadGate arms the gate for the calling goroutine: its n-th disk read
@@ -164,6 +202,15 @@ func (d *CDisk) Read(a uint64) []byte {
 }
 
 func (d *CDisk) Write(a uint64, v []byte) {
+	d.mu.Lock()
+	hold := d.holdCh
+	if hold != nil && a < d.holdFrom {
+		hold = nil
+	}
+	d.mu.Unlock()
+	if hold != nil {
+		<-hold
+	}
 	d.maybeYield()
 	if len(v) != BlockSize {
 		panic("cdisk: write of non-block")
